@@ -34,7 +34,7 @@ ANCHORS = [
     "stereomolgraph.rdmol2graph:RDMol2StereoMolGraph.smg_from_rdmol#neighbors_begin_with_none = ",
 ]
 REQUIRED_ANCHORS = ANCHORS
-REQUIRED = ["pairs_same_isomer", "label_sets", "mapnum_imports", "kind:renumber", "kind:respell", "kind:both", "options:8", "labels:SP", "labels:TB", "labels:OH", "labels:TET", "labels:EZ", "molecules_over_256_atoms", "kekule_spellings"]
+REQUIRED = ["pairs_same_isomer", "label_sets", "mapnum_imports", "kind:renumber", "kind:respell", "kind:both", "options:8", "labels:SP", "labels:TB", "labels:OH", "labels:TET", "labels:EZ", "molecules_over_256_atoms", "kekule_spellings", "converter_reused"]
 CASE_TIMEOUT = 120
 SKELETONS = [
     "CC(O)F", "CC(N)C(=O)O", "FC=CCl", "CC1CCC(C)CC1", "OCC(O)C(O)C=O", "NC(CS)C(=O)O", "CS(=O)CC", "ClC(Br)=C(F)I", "CC(Cl)C(Br)C", "CC=CC(C)O",
@@ -275,6 +275,24 @@ def check_case(ctx, case):
     except Exception as e:  # noqa: BLE001
         ctx.violate(f"C12/import-raises:{type(e).__name__}/{klass}/{kind}", f"import raised {e!r} for {case['smiles']} ({okey})", case)
         return
+    if rng.random() < 0.3 and m1.GetNumAtoms() <= 120:
+        # ONE long-lived converter object that has imported other molecules before (a loop over a data set): what it
+        # returns for this molecule - through the call interface and through smg_from_rdmol - must be what a new
+        # converter returns
+        try:
+            conv = _conv(opt)
+            for smi_prev in rng.sample(["CCO", "C1CCCCC1", "c1ccccc1C=CC", "C1CC=CCCCC1", "F/C=C/Cl", "C[C@H](F)Cl"], 2):
+                conv(_mol(smi_prev))
+            hist = [("smg_from_rdmol", conv.smg_from_rdmol(m1), _conv(opt).smg_from_rdmol(m1)), ("call", conv(m1), g1)]
+            ctx.count("converter_reused")
+            for how, got_, want_ in hist:
+                d_ = sem.pg_diff(snap(want_), snap(got_), mode="exact")
+                if d_:
+                    ctx.violate(f"C12/import-depends-on-converter-history/{klass}/{how}", f"{case['smiles']} ({okey}): a converter that imported other molecules before returns a different graph than a new converter ({how}): {d_[0]}", case)
+                    return
+        except Exception as e:  # noqa: BLE001
+            ctx.violate(f"C12/import-raises:{type(e).__name__}/{klass}/reused-converter", f"{e!r} for {case['smiles']} ({okey})", case)
+            return
     def invented_orientation():
         """Mechanism classifier of the recorded finding (stereo_complete=True invents a parity / an orientation for every
         unit RDKit leaves unlabelled). True only if ALL of the following hold:
@@ -311,6 +329,8 @@ def check_case(ctx, case):
                     x, y = tuple(k2)
                     if m2.GetBondBetweenAtoms(x, y).GetStereo() not in (Chem.BondStereo.STEREONONE, Chem.BondStereo.STEREOANY):
                         return False
+                    if any(x in r and y in r and len(r) < 8 for r in m2.GetRingInfo().AtomRings()):
+                        return False  # cis by the ring rule, not an invented orientation
                 ndiff += 1
         if not ndiff:
             return False
